@@ -231,7 +231,7 @@ func genAction(c *sim.Ctx, cfg genCfg, names []string, guard bool) *ref.Action {
 			}
 		case k == 12:
 			if cfg.failOps {
-				a.Ops = append(a.Ops, ref.Op{Kind: []string{"retbad", "retbad", "retarr", "retfn", "retdate", "retgetter", "retcyclic", "throwbare", "throwhostile"}[c.Intn(9, "badkind")]})
+				a.Ops = append(a.Ops, ref.Op{Kind: []string{"retbad", "retbad", "retarr", "retfn", "retdate", "retgetter", "retcyclic", "throwbare", "throwhostile", "throwplain", "throwarr"}[c.Intn(11, "badkind")]})
 			}
 		case k == 13:
 			if cfg.failOps && !a.Native {
@@ -274,6 +274,11 @@ func genSpec(c *sim.Ctx, cfg genCfg) *ref.Spec {
 		s.ActionErrorBranches = true
 	case 2:
 		s.ActionErrorNode = names[c.Intn(nn, "aerrnode")]
+		if c.Chance(1, 5, "aerrmissing") {
+			// a designated node the spec does not (or no longer does) define: the failure is
+			// routed there all the same
+			s.ActionErrorNode = "nowhere"
+		}
 	case 3:
 		s.NoAutoErrorNode = c.Bool("noauto")
 	}
@@ -460,6 +465,10 @@ func renderJS(a *ref.Action) string {
 		case "retcyclic":
 			// a value that contains itself
 			sb.WriteString("var cyc = [1]; cyc.push(cyc); return cyc;\n")
+		case "throwplain":
+			sb.WriteString("throw {\"code\": 42};\n")
+		case "throwarr":
+			sb.WriteString("throw [1, 2];\n")
 		case "throwbare":
 			// a thrown object without a prototype (nothing to turn it into a string with)
 			sb.WriteString("throw Object.create(null);\n")
@@ -571,7 +580,7 @@ func nativeAction(a *ref.Action) *core.FuncAction {
 				}
 			case "throw":
 				return nil, errors.New("boom")
-			case "retbad", "retarr", "retfn", "retdate", "retgetter", "retcyclic", "throwbare", "throwhostile":
+			case "retbad", "retarr", "retfn", "retdate", "retgetter", "retcyclic", "throwbare", "throwhostile", "throwplain", "throwarr":
 				return nil, fmt.Errorf("42 (int64) isn't Bindings")
 			case "retnull":
 				return exe, nil
